@@ -114,6 +114,11 @@ package backend
 //@   ensures {C07} [nothing-is-listed-on-a-full-page] listed ==> !old(pastMax)
 //@   ensures {C07} [objects-only-grow-by-one] len(objects) == old(len(objects)) || len(objects) == old(len(objects)) + 1
 
+// a time is handed on as a pointer to a copy of it
+//@ func GetTimePtr
+//@   frame none
+//@   ensures {C20} [a-pointer-to-the-time] ret0 != nil && *ret0 == t
+
 // the empty string is passed on as "absent", any other string as a pointer to an equal string
 //@ func GetPtrFromString
 //@   frame none
